@@ -94,6 +94,8 @@ def config(rng, cert=None):
            'databytes=' + rng.choice(['0', '0', '1000'])]
     plan = [rng.choice(['ok', 'ok', 'ok', 'exit:31', 'exit:100']) for _ in range(4)]
     cfg.append('qq=' + ','.join(plan))
+    if rng.random() < 0.2:
+        cfg.append('check2822=1')          # strict header checks of smtp_data: part of Session.step, used unchanged in both channels
     return ';'.join(cfg)
 
 
@@ -114,7 +116,7 @@ def tls_split(chunks):
 
 
 def transaction(rng):
-    ch = [G.mail(rng, rng.choice(['ok', 'ok', 'bounce', 'size']))]
+    ch = [G.mail(rng, rng.choice(['ok', 'ok', 'ok', 'bounce', 'size', 'body']))]
     for _ in range(rng.choice([1, 1, 2])):
         ch.append(G.rcpt(rng, rng.choice(['ok', 'ok', 'remote', 'no'])))
     ch += [b'DATA\r\n', small_body(rng)]
